@@ -172,8 +172,9 @@ def parseExtUnparsed (bs : Bytes) : Except PErr (Ext × Nat) := do
     let (data, m) ← parseRaw (len : Int) (bs.drop 4)
     pure (⟨"TlsExtensionUnparsed", t, .raw data⟩, 4 + m)
 
-/-- body of a parsed extension class; `rest` is the buffer after the 4-byte header (NOT confined
-to `len`, as in the code); returns the body and the bytes consumed after the header -/
+/-- body of a parsed extension class; `rest` is what the class is given to read: the variant walk
+hands it exactly the `len` declared bytes after the 4-byte header (`_check_header` returns a parser
+confined to the extension); returns the body and the bytes consumed after the header -/
 def parseExtBody (kind : ExtKind) (len : Nat) (rest : Bytes) : Except PErr (ExtBody × Nat) :=
   match kind with
   | .unusedData => do
@@ -207,8 +208,9 @@ def parseExtBody (kind : ExtKind) (len : Nat) (rest : Bytes) : Except PErr (ExtB
 
 /-- Walk the variant list of `TlsExtensionVariantClient/Server` (`VariantParsable._parse`) for an
 extension whose (known) type code is `t`: a class of another type raises `InvalidType` (next),
-`TlsExtensionUnparsed` accepts anything, a matching class parses the body; `InvalidValue` from the
-body escapes the variant; exhaustion is `InvalidValue`. -/
+`TlsExtensionUnparsed` accepts anything, a matching class parses the body — from the declared
+extension data ONLY, reading beyond it is `NotEnoughData` —; `InvalidValue` from the body escapes the
+variant; exhaustion is `InvalidValue`. (What the variant makes of a `NotEnoughData`: `completeExt` below.) -/
 def walkExtVariants (t len : Nat) (bs : Bytes) : List (String × Nat) → Except PErr (Ext × Nat)
   | [] => .error .invalidValue
   | (cls, code) :: more =>
@@ -218,14 +220,25 @@ def walkExtVariants (t len : Nat) (bs : Bytes) : List (String × Nat) → Except
       match extKindOf cls with
       | none => .error unmodelled
       | some kind =>
-        match parseExtBody kind len (bs.drop 4) with
+        match parseExtBody kind len ((bs.drop 4).take len) with
         | .ok (body, m) => .ok (⟨cls, t, body⟩, 4 + m)
         | .error .invalidType => walkExtVariants t len bs more
         | .error e => .error e
 
+/-- the wrapper of `TlsExtensionVariantBase._parse` around the walk: the extension is present in full
+(the header check has passed), so a `NotEnoughData` of the class — its body declares more than the
+extension holds, and no further byte can help — is reported as `InvalidValue` -/
+def completeExt (r : Except PErr (Ext × Nat)) : Except PErr (Ext × Nat) :=
+  match r with
+  | .error (.notEnough _) => .error .invalidValue
+  | r => r
+
 /-- `TlsExtensionVariantClient/Server._parse`. The first class tried is a parsed class: its
 `_check_header` decodes the type strictly (`InvalidValue` for an unknown type), reads the length
-and checks that the declared data is present, before any type comparison. -/
+and checks that the declared data is present, before any type comparison. Once the extension is
+known to be complete, `NotEnoughData` from the walk becomes `InvalidValue` (`completeExt`); a
+truncated extension stays `NotEnoughData`. Parsing an extension CLASS directly (`parseExtBody`
+and the classes of Canon.lean) is not affected. -/
 def parseExtVariant (variants : List (String × Nat)) (bs : Bytes) : Except PErr (Ext × Nat) :=
   match parseCoded Gen.ExtensionType.codes 2 bs with
   | .error e => .error e
@@ -235,10 +248,11 @@ def parseExtVariant (variants : List (String × Nat)) (bs : Bytes) : Except PErr
     | .error e => .error e
     | .ok (len, _) =>
       if (bs.drop 4).length < len then .error (.notEnough ((len + 4 : Nat) : Int))
-      else walkExtVariants t len bs variants
+      else completeExt (walkExtVariants t len bs variants)
 
 /-- one item of `TlsExtensionsClient/Server`: the variant, and on `InvalidValue` the fallback class
-`TlsExtensionUnparsed` -/
+`TlsExtensionUnparsed` (so a complete extension whose class runs short of data inside it is kept as
+`TlsExtensionUnparsed`, like any other data the class rejects) -/
 def parseExt (variants : List (String × Nat)) (bs : Bytes) : Except PErr (Ext × Nat) :=
   Codec.orElseInvalid (parseExtVariant variants) parseExtUnparsed bs
 
